@@ -223,9 +223,21 @@ class Ref:
         if k == "op":
             return self.lift([E(node[2]), E(node[3])], OPS[node[1]])
         if k == "idx":
-            return self.lift([E(node[1])], lambda c: c[node[2]])
+            inner = node[1]
+            # Indexing a container *display* is plain Python, done while the task body runs:
+            # only the selected element is ever part of the returned expression.
+            if inner[0] in ("list", "tuple") and isinstance(node[2], int):
+                return E(inner[1][node[2]])
+            if inner[0] == "dict":
+                for key, n in inner[1]:
+                    if key == node[2]:
+                        return E(n)
+            return self.lift([E(inner)], lambda c: c[node[2]])
         if k == "attr":
-            return self.lift([E(node[1])], lambda c: getattr(c, node[2]))
+            inner = node[1]
+            if inner[0] in ("nt", "dc") and node[2] in ("x", "y"):
+                return E(inner[1][0 if node[2] == "x" else 1])
+            return self.lift([E(inner)], lambda c: getattr(c, node[2]))
         if k == "cond":
             c = E(node[1])
             out = Out([("e", e) for e in c.errs])
